@@ -43,5 +43,9 @@ def replace_table(s, heading_re, new_heading, table):
 
 s = replace_table(s, r"^### 7\.1 Repaired \(\d+ `fix:` commits\)", "### 7.1 Repaired (%d `fix:` commits)" % len(fixed), t1)
 s = replace_table(s, r"^### 7\.2 Recorded, not repaired \(\d+ known findings\)", "### 7.2 Recorded, not repaired (%d known findings)" % len(finds), t2)
+# the summary sentence of section 0
+nind = len([n for n in os.listdir(os.path.join(V, "seeded")) if re.match(r"C\d+-m\d+$", n)])
+s = re.sub(r"\d+ defects were\s+repaired by `fix:` commits and \d+ are recorded as known findings \(section 7\)\. \d+ independent",
+           "%d defects were\nrepaired by `fix:` commits and %d are recorded as known findings (section 7). %d independent" % (len(fixed), len(finds), nind), s)
 open(p, "w").write(s)
 print("section 7: %d fixed, %d known" % (len(fixed), len(finds)))
